@@ -113,6 +113,17 @@ def _add_shared(g: dict, rng: random.Random) -> list[str]:
                 g["order"].append(len(g["nodes"]) - 1)
             shared.append("sf")
     if rng.random() < 0.3:
+        avail = [nd for nd in g["nodes"] if nd["kind"] == "fn" and not nd.get("blk") and not nd.get("closure")]
+        if len(avail) >= 2:
+            # two if/else gates sharing one predicate and the SAME two targets in SWAPPED roles (when_true/when_false exchanged):
+            # the stored decision is a target name, so the order of the targets is part of the gate's identity
+            t1, t2 = [x["name"] for x in rng.sample(avail, 2)]
+            val = rng.random() < 0.5
+            for nm, (a_, b_) in (("sxA", (t1, t2)), ("sxB", (t2, t1))):
+                g["nodes"].append({"kind": "ifelse", "name": nm, "fid": "sx", "params": [], "when_true": a_, "when_false": b_, "default_open": False, "cache": True, "decide": {"op": "const", "value": val}})
+                g["order"].append(len(g["nodes"]) - 1)
+            shared.append("sx")
+    if rng.random() < 0.3:
         # a cacheable node that consumes (mutates in place) a list argument; the history also calls it with the emptied list
         g["nodes"].append({"kind": "fn", "name": "dr", "params": [{"name": "drq"}], "outs": ["dr_o"], "cache": True, "beh": "drain", "beh_param": "drq"})
         g["order"].append(len(g["nodes"]) - 1)
